@@ -84,6 +84,7 @@ type Step struct {
 	KeysOnly bool `json:"keysonly,omitempty"` // dump: a KeysOnly feed
 	ViaBucket bool `json:"via_bucket,omitempty"` // dump: through Bucket.StartDCPFeed with Scopes naming every collection; the collection's share is kept
 	Fresh  bool   `json:"fresh,omitempty"`    // purge: through a handle opened for the purpose, which has opened no collection
+	CreateOrOpen bool `json:"create_or_open,omitempty"` // reopen: with CreateOrOpen instead of ReOpenExisting
 	Nested *KOp   `json:"nested,omitempty"` // kv (Update, WriteUpdateWithXattrs, WriteSubDoc, SubdocInsert): another call on the same key,
 	// made through another handle inside the window between the call's read and its compare-and-swap write
 }
@@ -1605,7 +1606,11 @@ func execKvInner(in kvInput, scratch string, prog *kvProgress) (Case, error) {
 			}
 			k.handles = nil
 			for j := 0; j < nh; j++ {
-				h, err := rosmar.OpenBucket(k.url, k.name, rosmar.ReOpenExisting)
+				mode := rosmar.OpenMode(rosmar.ReOpenExisting)
+				if st.CreateOrOpen {
+					mode = rosmar.CreateOrOpen
+				}
+				h, err := rosmar.OpenBucket(k.url, k.name, mode)
 				if err != nil {
 					return c, fmt.Errorf("reopen: %w", err)
 				}
